@@ -16,10 +16,24 @@ Open Scope string_scope.
 Open Scope list_scope.
 Open Scope N_scope.
 
+(* worlds only grow *)
+Definition Grow (w w' : world) : Prop :=
+  w_next w <= w_next w' /\ (List.length (w_models w) <= List.length (w_models w'))%nat /\
+  (List.length (w_files w) <= List.length (w_files w'))%nat.
+Lemma Grow_refl w : Grow w w.
+Proof. unfold Grow. repeat split; lia. Qed.
+Lemma Grow_trans a c d : Grow a c -> Grow c d -> Grow a d.
+Proof. unfold Grow. intros (A1 & A2 & A3) (B1 & B2 & B3). repeat split; lia. Qed.
+
+Definition grows {A} (c : W A) : Prop := forall w r w', c w = Val (r, w') -> Grow w w'.
+
 Section Irp.
 Variable P : id -> Prop.
 Variable PM : N -> Prop.
 Variable PF : N -> Prop.
+(* bounds on what the computation may allocate (node ids, model numbers, file ids): ids between the current bound
+   of the world and these are not protected *)
+Variables L LM LF : N.
 
 (* a node record that may be stored outside P *)
 Definition GoodN (n : node) : Prop :=
@@ -32,25 +46,23 @@ Definition GoodM (x : model) : Prop :=
   (forall p j, In (p, j) (m_idents x) -> ~ P j) /\
   (forall p l j, In (p, l) (m_origins x) -> In j l -> ~ P j).
 
-Definition Sealed (w : world) : Prop :=
-  (forall i, P i -> i < w_next w) /\
+Definition SealedL (w : world) : Prop :=
+  (forall i, P i -> i < w_next w \/ L <= i) /\
   (forall i n, ~ P i -> w_nodes w i = Some n -> GoodN n) /\
   (forall m x, ~ PM m -> nth_opt (w_models w) (N.to_nat m) = Some x -> GoodM x) /\
-  (forall m, PM m -> exists x, nth_opt (w_models w) (N.to_nat m) = Some x) /\
-  (forall f, PF f -> exists fl, nth_opt (w_files w) (N.to_nat f) = Some fl) /\
+  (forall m, PM m -> (exists x, nth_opt (w_models w) (N.to_nat m) = Some x) \/ LM <= m) /\
+  (forall f, PF f -> (exists fl, nth_opt (w_files w) (N.to_nat f) = Some fl) \/ LF <= f) /\
   (forall f fl, ~ PF f -> nth_opt (w_files w) (N.to_nat f) = Some fl -> ~ PM (f_model fl)).
+
+Local Notation Sealed := SealedL.
+(* the final world stays within the bounds *)
+Definition Bnd (w : world) : Prop :=
+  w_next w <= L /\ N.of_nat (List.length (w_models w)) <= LM /\ N.of_nat (List.length (w_files w)) <= LF.
+Lemma Bnd_Grow w w' : Grow w w' -> Bnd w' -> Bnd w.
+Proof. unfold Grow, Bnd. intros (A1 & A2 & A3) (B1 & B2 & B3). repeat split; lia. Qed.
 
 Definition FileSame (w w' : world) : Prop :=
   forall f, PF f -> nth_opt (w_files w') (N.to_nat f) = nth_opt (w_files w) (N.to_nat f).
-
-(* worlds only grow *)
-Definition Grow (w w' : world) : Prop :=
-  w_next w <= w_next w' /\ (List.length (w_models w) <= List.length (w_models w'))%nat /\
-  (List.length (w_files w) <= List.length (w_files w'))%nat.
-Lemma Grow_refl w : Grow w w.
-Proof. unfold Grow. repeat split; lia. Qed.
-Lemma Grow_trans a c d : Grow a c -> Grow c d -> Grow a d.
-Proof. unfold Grow. intros (A1 & A2 & A3) (B1 & B2 & B3). repeat split; lia. Qed.
 
 Definition Same (w w' : world) : Prop :=
   (forall i, P i -> w_nodes w' i = w_nodes w i) /\
@@ -76,52 +88,56 @@ Proof.
 Qed.
 
 (* ------------------------------------------------------------------ the predicate on computations *)
-Definition irpq {A} (Q : A -> Prop) (c : W A) : Prop :=
-  forall w r w', Sealed w -> c w = Val (r, w') -> Sealed w' /\ Same w w' /\ forall a, r = OK a -> Q a.
-Definition irp {A} (c : W A) : Prop := irpq (fun _ => True) c.
+Definition irpqL {A} (Q : A -> Prop) (c : W A) : Prop :=
+  forall w r w', Sealed w -> c w = Val (r, w') -> Bnd w' -> Sealed w' /\ Same w w' /\ forall a, r = OK a -> Q a.
+Definition irpL {A} (c : W A) : Prop := irpqL (fun _ => True) c.
+Local Notation irpq := irpqL.
+Local Notation irp := irpL.
 
 Lemma irpq_weaken {A} (Q Q' : A -> Prop) c : (forall a, Q a -> Q' a) -> irpq Q c -> irpq Q' c.
-Proof. intros HQ H w r w' S E. destruct (H _ _ _ S E) as (S' & Sm & Hq). auto. Qed.
+Proof. intros HQ H w r w' S E B. destruct (H _ _ _ S E B) as (S' & Sm & Hq). auto. Qed.
 Lemma irpq_irp {A} (Q : A -> Prop) c : irpq Q c -> irp c.
 Proof. apply irpq_weaken. auto. Qed.
 
 Lemma irpq_ret {A} (Q : A -> Prop) a : Q a -> irpq Q (wret a).
-Proof. intros Hq w r w' S E. apply wret_inv in E as (-> & ->). split; [exact S|]. split; [apply Same_refl|]. intros a' [= <-]. exact Hq. Qed.
+Proof. intros Hq w r w' S E B. apply wret_inv in E as (-> & ->). split; [exact S|]. split; [apply Same_refl|]. intros a' [= <-]. exact Hq. Qed.
 Lemma irpq_fail {A} (Q : A -> Prop) e : irpq Q (@wfail A e).
-Proof. intros w r w' S E. apply wfail_inv in E as (-> & ->). split; [exact S|]. split; [apply Same_refl|]. intros a' [=]. Qed.
+Proof. intros w r w' S E B. apply wfail_inv in E as (-> & ->). split; [exact S|]. split; [apply Same_refl|]. intros a' [=]. Qed.
 Lemma irpq_panic {A} (Q : A -> Prop) s : irpq Q (@wpanic A s).
-Proof. intros w r w' S E. discriminate E. Qed.
+Proof. intros w r w' S E B. discriminate E. Qed.
 Lemma irpq_fuel {A} (Q : A -> Prop) : irpq Q (@wfuel A).
-Proof. intros w r w' S E. discriminate E. Qed.
+Proof. intros w r w' S E B. discriminate E. Qed.
 Lemma irp_ro {A} (c : W A) : ro c -> irp c.
-Proof. intros R w r w' S E. apply R in E. subst. split; [exact S|]. split; [apply Same_refl|auto]. Qed.
+Proof. intros R w r w' S E B. apply R in E. subst. split; [exact S|]. split; [apply Same_refl|auto]. Qed.
 
+(* sequencing: the continuation only grows the world, so the intermediate world is within the bounds too *)
 Lemma irpq_bind {A C} (Q1 : A -> Prop) (Q : C -> Prop) (c : W A) (k : A -> W C) :
-  irpq Q1 c -> (forall a, Q1 a -> irpq Q (k a)) -> irpq Q (wbind c k).
+  irpq Q1 c -> (forall a, grows (k a)) -> (forall a, Q1 a -> irpq Q (k a)) -> irpq Q (wbind c k).
 Proof.
-  intros Hc Hk w r w' S E. apply wbind_inv in E as [(a & w1 & E1 & E2) | (e & E1 & ->)].
-  - destruct (Hc _ _ _ S E1) as (S1 & Sm1 & Hq1).
-    destruct (Hk a (Hq1 a eq_refl) _ _ _ S1 E2) as (S2 & Sm2 & Hq2).
+  intros Hc Hg Hk w r w' S E B. apply wbind_inv in E as [(a & w1 & E1 & E2) | (e & E1 & ->)].
+  - assert (B1 : Bnd w1) by (eapply Bnd_Grow; [eapply Hg; eauto|exact B]).
+    destruct (Hc _ _ _ S E1 B1) as (S1 & Sm1 & Hq1).
+    destruct (Hk a (Hq1 a eq_refl) _ _ _ S1 E2 B) as (S2 & Sm2 & Hq2).
     split; auto. split; auto. eapply Same_trans; eauto.
-  - destruct (Hc _ _ _ S E1) as (S1 & Sm1 & _). split; [exact S1|]. split; [exact Sm1|]. intros a [=].
+  - destruct (Hc _ _ _ S E1 B) as (S1 & Sm1 & _). split; [exact S1|]. split; [exact Sm1|]. intros a [=].
 Qed.
 Lemma irp_try {A} (Q : A -> Prop) (c : W A) : irpq Q c -> irp (wtry c).
 Proof.
-  intros Hc w r w' S E. apply wtry_inv in E as (r0 & E & _). destruct (Hc _ _ _ S E) as (S1 & Sm & _). auto.
+  intros Hc w r w' S E B. apply wtry_inv in E as (r0 & E & _). destruct (Hc _ _ _ S E B) as (S1 & Sm & _). auto.
 Qed.
 Lemma irpq_try {A} (Q : A -> Prop) (c : W A) : irpq Q c -> irpq (fun o => forall a, o = Some a -> Q a) (wtry c).
 Proof.
-  intros Hc w r w' S E. apply wtry_inv in E as (r0 & E & ->). destruct (Hc _ _ _ S E) as (S1 & Sm & Hq).
+  intros Hc w r w' S E B. apply wtry_inv in E as (r0 & E & ->). destruct (Hc _ _ _ S E B) as (S1 & Sm & Hq).
   split; auto. split; auto. intros o [= <-] a Ha. destruct r0; [injection Ha as <-; auto | discriminate].
 Qed.
 Lemma irp_catch {A} (Q : A -> Prop) (c : W A) : irpq Q c -> irp (wcatch c).
 Proof.
-  intros Hc w r w' S E. apply wcatch_inv in E as (r0 & E & _). destruct (Hc _ _ _ S E) as (S1 & Sm & _). auto.
+  intros Hc w r w' S E B. apply wcatch_inv in E as (r0 & E & _). destruct (Hc _ _ _ S E B) as (S1 & Sm & _). auto.
 Qed.
 (* a computation that starts by looking at the whole world (fuel) *)
 Lemma irpq_wget {C} (Q : C -> Prop) (k : world -> W C) : (forall w0, irpq Q (k w0)) -> irpq Q (wbind wget k).
 Proof.
-  intros Hk w r w' S E. apply wbind_inv in E as [(a & w1 & E1 & E2) | (e & E1 & _)].
+  intros Hk w r w' S E B. apply wbind_inv in E as [(a & w1 & E1 & E2) | (e & E1 & _)].
   - apply wget_inv in E1 as ([= <-] & ->). eapply Hk; eauto.
   - apply wget_inv in E1 as ([=] & _).
 Qed.
@@ -143,31 +159,32 @@ Qed.
 Lemma irpq_get {C} (Q : C -> Prop) i (k : node -> W C) :
   ~ P i -> (forall n, GoodN n -> irpq Q (k n)) -> irpq Q (wbind (get_node i) k).
 Proof.
-  intros Hi Hk w r w' S E. apply wbind_inv in E as [(n & w1 & E1 & E2) | (e & E1 & _)].
+  intros Hi Hk w r w' S E B. apply wbind_inv in E as [(n & w1 & E1 & E2) | (e & E1 & _)].
   - apply get_node_inv in E1 as (n' & Hn & [= <-] & ->). eapply (Hk n); eauto. eapply (proj1 (proj2 S)); eauto.
   - apply get_node_inv in E1 as (n' & _ & [=] & _).
 Qed.
 Lemma irpq_get_any {C} (Q : C -> Prop) i (k : node -> W C) :
   (forall n, irpq Q (k n)) -> irpq Q (wbind (get_node i) k).
 Proof.
-  intros Hk w r w' S E. apply wbind_inv in E as [(n & w1 & E1 & E2) | (e & E1 & _)].
+  intros Hk w r w' S E B. apply wbind_inv in E as [(n & w1 & E1 & E2) | (e & E1 & _)].
   - apply get_node_inv in E1 as (n' & Hn & [= <-] & ->). eapply (Hk n); eauto.
   - apply get_node_inv in E1 as (n' & _ & [=] & _).
 Qed.
 Lemma irp_set_node i n' : ~ P i -> GoodN n' -> irp (set_node i n').
 Proof.
-  intros Hi Hg w r w' S E. apply set_node_wset in E as (_ & ->).
+  intros Hi Hg w r w' S E B. apply set_node_wset in E as (_ & ->).
   split; [apply Sealed_wset; auto|]. split; [apply Same_wset; auto|auto].
 Qed.
 Lemma irp_modify_node i f : ~ P i -> (forall n, GoodN n -> GoodN (f n)) -> irp (modify_node i f).
 Proof.
-  intros Hi Hf w r w' S E. apply modify_node_wset in E as (n & Hn & _ & ->).
+  intros Hi Hf w r w' S E B. apply modify_node_wset in E as (n & Hn & _ & ->).
   split; [apply Sealed_wset; auto; apply Hf; eapply (proj1 (proj2 S)); eauto|]. split; [apply Same_wset; auto|auto].
 Qed.
 Lemma irpq_alloc n' : GoodN n' -> irpq (fun c => ~ P c) (alloc n').
 Proof.
-  intros Hg w r w' S E. apply alloc_walloc in E as (-> & ->).
-  assert (Hfresh : ~ P (w_next w)). { intros Hp. apply (proj1 S) in Hp. lia. }
+  intros Hg w r w' S E B. apply alloc_walloc in E as (-> & ->).
+  assert (Hfresh : ~ P (w_next w)).
+  { intros Hp. apply (proj1 S) in Hp. destruct B as (B & _). unfold walloc in B; cbn [w_next] in B. lia. }
   destruct S as (S1 & S2 & S3 & S4). split; [|split].
   - split; [|split; [|split; [exact S3|exact S4]]].
     + intros i Hi. unfold walloc; cbn. apply S1 in Hi. lia.
@@ -193,7 +210,7 @@ Proof.
       * rewrite nth_opt_nth_error in Hx, Ey. rewrite (list_set_nth_eq _ _ _ _ Ey) in Hx. injection Hx as <-. exact Hg.
       * rewrite nth_opt_nth_error in Ey. rewrite (list_set_none _ _ _ Ey) in Hx. rewrite <- nth_opt_nth_error in Ey. congruence.
     + rewrite nth_opt_nth_error, list_set_nth_neq, <- nth_opt_nth_error in Hx by (apply to_nat_neq; exact Hne). eapply S3; eauto.
-  - intros m' Hm'. destruct (S4 m' Hm') as (xb & Hxb). exists xb. unfold wmodels; cbn [w_models].
+  - intros m' Hm'. destruct (S4 m' Hm') as [(xb & Hxb)|Hge]; [left|right; exact Hge]. exists xb. unfold wmodels; cbn [w_models].
     rewrite nth_opt_nth_error, list_set_nth_neq, <- nth_opt_nth_error; auto.
     apply to_nat_neq. intros ->. auto.
 Qed.
@@ -208,7 +225,7 @@ Qed.
 Lemma irpq_get_model {C} (Q : C -> Prop) m (k : model -> W C) :
   ~ PM m -> (forall x, GoodM x -> irpq Q (k x)) -> irpq Q (wbind (get_model m) k).
 Proof.
-  intros Hm Hk w r w' S E. apply wbind_inv in E as [(x & w1 & E1 & E2) | (e & E1 & _)].
+  intros Hm Hk w r w' S E B. apply wbind_inv in E as [(x & w1 & E1 & E2) | (e & E1 & _)].
   - apply get_model_inv in E1 as (x' & Hx & [= <-] & ->). eapply (Hk x); eauto.
     exact (proj1 (proj2 (proj2 S)) m x Hm Hx).
   - apply get_model_inv in E1 as (x' & _ & [=] & _).
@@ -216,18 +233,18 @@ Qed.
 Lemma irpq_get_model_any {C} (Q : C -> Prop) m (k : model -> W C) :
   (forall x, irpq Q (k x)) -> irpq Q (wbind (get_model m) k).
 Proof.
-  intros Hk w r w' S E. apply wbind_inv in E as [(x & w1 & E1 & E2) | (e & E1 & _)].
+  intros Hk w r w' S E B. apply wbind_inv in E as [(x & w1 & E1 & E2) | (e & E1 & _)].
   - apply get_model_inv in E1 as (x' & Hx & [= <-] & ->). eapply (Hk x); eauto.
   - apply get_model_inv in E1 as (x' & _ & [=] & _).
 Qed.
 Lemma irp_set_model m x' : ~ PM m -> GoodM x' -> irp (set_model m x').
 Proof.
-  intros Hm Hg w r w' S E. apply set_model_inv in E as (_ & ->).
+  intros Hm Hg w r w' S E B. apply set_model_inv in E as (_ & ->).
   split; [apply Sealed_wmodels; auto|]. split; [apply Same_wmodels; auto|auto].
 Qed.
 Lemma irp_modify_model m f : ~ PM m -> (forall x, GoodM x -> GoodM (f x)) -> irp (modify_model m f).
 Proof.
-  intros Hm Hf w r w' S E. apply modify_model_inv in E as (x & Hx & _ & ->).
+  intros Hm Hf w r w' S E B. apply modify_model_inv in E as (x & Hx & _ & ->).
   split; [|split; [apply Same_wmodels; auto|auto]]. apply Sealed_wmodels; auto. apply Hf.
   exact (proj1 (proj2 (proj2 S)) m x Hm Hx).
 Qed.
@@ -238,7 +255,7 @@ Proof. unfold get_file. destruct (nth_opt (w_files w) (N.to_nat f)) as [fl|]; [|
 Lemma irpq_get_file {C} (Q : C -> Prop) f (k : file -> W C) :
   ~ PF f -> (forall fl, ~ PM (f_model fl) -> irpq Q (k fl)) -> irpq Q (wbind (get_file f) k).
 Proof.
-  intros Hf Hk w r w' S E. apply wbind_inv in E as [(x & w1 & E1 & E2) | (e & E1 & _)].
+  intros Hf Hk w r w' S E B. apply wbind_inv in E as [(x & w1 & E1 & E2) | (e & E1 & _)].
   - apply get_file_inv in E1 as (fl & Hfl & [= <-] & ->). eapply (Hk x); eauto.
     exact (proj2 (proj2 (proj2 (proj2 (proj2 S)))) f x Hf Hfl).
   - apply get_file_inv in E1 as (fl & _ & [=] & _).
@@ -246,19 +263,19 @@ Qed.
 Lemma irpq_get_file_any {C} (Q : C -> Prop) f (k : file -> W C) :
   (forall fl, irpq Q (k fl)) -> irpq Q (wbind (get_file f) k).
 Proof.
-  intros Hk w r w' S E. apply wbind_inv in E as [(x & w1 & E1 & E2) | (e & E1 & _)].
+  intros Hk w r w' S E B. apply wbind_inv in E as [(x & w1 & E1 & E2) | (e & E1 & _)].
   - apply get_file_inv in E1 as (fl & Hfl & [= <-] & ->). eapply (Hk x); eauto.
   - apply get_file_inv in E1 as (fl & _ & [=] & _).
 Qed.
 Lemma irp_set_file f x : ~ PF f -> ~ PM (f_model x) -> irp (set_file f x).
 Proof.
-  intros Hf Hx w r w' S E. unfold set_file in E. injection E as <- <-.
+  intros Hf Hx w r w' S E B. unfold set_file in E. injection E as <- <-.
   destruct S as (S1 & S2 & S3 & S4 & S5 & S6).
   assert (Hold : forall g, g <> f -> nth_opt (list_set (w_files w) (N.to_nat f) x) (N.to_nat g) = nth_opt (w_files w) (N.to_nat g)).
   { intros g Hg. rewrite !nth_opt_nth_error. apply list_set_nth_neq. apply to_nat_neq. exact Hg. }
   split; [|split; [|auto]].
   - split; [exact S1|]. split; [exact S2|]. split; [exact S3|]. split; [exact S4|]. split.
-    + intros g Hg. destruct (S5 g Hg) as (fl & Hfl). exists fl. cbn [w_files]. rewrite Hold; [exact Hfl|]. intros ->. auto.
+    + intros g Hg. destruct (S5 g Hg) as [(fl & Hfl)|Hge]; [left|right; exact Hge]. exists fl. cbn [w_files]. rewrite Hold; [exact Hfl|]. intros ->. auto.
     + intros g fl Hg Hfl. cbn [w_files] in Hfl. destruct (N.eq_dec g f) as [->|Hne].
       * destruct (nth_opt (w_files w) (N.to_nat f)) as [y|] eqn:Ey.
         -- rewrite nth_opt_nth_error in Hfl, Ey. rewrite (list_set_nth_eq _ _ _ _ Ey) in Hfl. injection Hfl as <-. exact Hx.
@@ -302,3 +319,76 @@ Lemma GoodM_idents x k j : GoodM x -> assoc_get k (m_idents x) = Some j -> ~ P j
 Proof. intros (_ & H & _) E. apply assoc_get_In in E as (k' & Hin). eapply H; eauto. Qed.
 
 End Irp.
+
+(* ------------------------------------------------------------------ the user-level judgement: a BOUNDED region
+   (P, PM, PF are allocated / exist); no bounds to choose *)
+Definition Sealed (P : id -> Prop) (PM PF : N -> Prop) (w : world) : Prop :=
+  (forall i, P i -> i < w_next w) /\
+  (forall i n, ~ P i -> w_nodes w i = Some n -> GoodN P PM n) /\
+  (forall m x, ~ PM m -> nth_opt (w_models w) (N.to_nat m) = Some x -> GoodM P x) /\
+  (forall m, PM m -> exists x, nth_opt (w_models w) (N.to_nat m) = Some x) /\
+  (forall f, PF f -> exists fl, nth_opt (w_files w) (N.to_nat f) = Some fl) /\
+  (forall f fl, ~ PF f -> nth_opt (w_files w) (N.to_nat f) = Some fl -> ~ PM (f_model fl)).
+
+Definition irpq (P : id -> Prop) (PM PF : N -> Prop) {A} (Q : A -> Prop) (c : W A) : Prop :=
+  forall w r w', Sealed P PM PF w -> c w = Val (r, w') -> Sealed P PM PF w' /\ Same P PM PF w w' /\ forall a, r = OK a -> Q a.
+Definition irp (P : id -> Prop) (PM PF : N -> Prop) {A} (c : W A) : Prop := irpq P PM PF (fun _ => True) c.
+
+Lemma Sealed_SealedL P PM PF L LM LF w : Sealed P PM PF w -> SealedL P PM PF L LM LF w.
+Proof.
+  intros (S1 & S2 & S3 & S4 & S5 & S6). split; [intros i Hi; left; auto|]. split; [exact S2|]. split; [exact S3|].
+  split; [intros m Hm; left; auto|]. split; [intros f Hf; left; auto|exact S6].
+Qed.
+Lemma SealedL_Sealed P PM PF L LM LF w w' :
+  Sealed P PM PF w -> Same P PM PF w w' -> SealedL P PM PF L LM LF w' -> Sealed P PM PF w'.
+Proof.
+  intros (A1 & _ & _ & A4 & A5 & _) (_ & Sm & Sf & (G1 & _)) (S1 & S2 & S3 & S4 & S5 & S6).
+  split; [intros i Hi; apply A1 in Hi; lia|]. split; [exact S2|]. split; [exact S3|].
+  split; [intros m Hm; rewrite (Sm m Hm); auto|]. split; [intros f Hf; rewrite (Sf f Hf); auto|exact S6].
+Qed.
+
+(* a judgement for all bounds is a judgement for bounded regions (take the bounds of the final world) *)
+Lemma irpq_of_L P PM PF {A} (Q : A -> Prop) (c : W A) :
+  (forall L LM LF, irpqL P PM PF L LM LF Q c) -> irpq P PM PF Q c.
+Proof.
+  intros H w r w' S E.
+  destruct (H (w_next w') (N.of_nat (List.length (w_models w'))) (N.of_nat (List.length (w_files w'))) w r w'
+              (Sealed_SealedL _ _ _ _ _ _ _ S) E) as (S' & Sm & Hq).
+  { unfold Bnd. repeat split; lia. }
+  split; [eapply SealedL_Sealed; eauto|]. split; [exact Sm|exact Hq].
+Qed.
+
+(* ------------------------------------------------------------------ worlds only grow *)
+Lemma grows_ro {A} (c : W A) : ro c -> grows c.
+Proof. intros R w r w' E. apply R in E. subst. apply Grow_refl. Qed.
+Lemma grows_bind {A C} (c : W A) (k : A -> W C) : grows c -> (forall a, grows (k a)) -> grows (wbind c k).
+Proof.
+  intros Hc Hk w r w' E. apply wbind_inv in E as [(a & w1 & E1 & E2) | (e & E1 & _)].
+  - eapply Grow_trans; [eapply Hc|eapply Hk]; eauto.
+  - eapply Hc; eauto.
+Qed.
+Lemma grows_try {A} (c : W A) : grows c -> grows (wtry c).
+Proof. intros Hc w r w' E. apply wtry_inv in E as (r0 & E & _). eapply Hc; eauto. Qed.
+Lemma grows_catch {A} (c : W A) : grows c -> grows (wcatch c).
+Proof. intros Hc w r w' E. apply wcatch_inv in E as (r0 & E & _). eapply Hc; eauto. Qed.
+Lemma grows_set_node i n : grows (set_node i n).
+Proof. intros w r w' E. apply set_node_wset in E as (_ & ->). unfold Grow, wset; cbn. repeat split; lia. Qed.
+Lemma grows_modify_node i f : grows (modify_node i f).
+Proof. intros w r w' E. apply modify_node_wset in E as (n & _ & _ & ->). unfold Grow, wset; cbn. repeat split; lia. Qed.
+Lemma grows_alloc n : grows (alloc n).
+Proof. intros w r w' E. apply alloc_walloc in E as (_ & ->). unfold Grow, walloc; cbn. repeat split; lia. Qed.
+Lemma grows_set_model m x : grows (set_model m x).
+Proof.
+  intros w r w' E. apply set_model_inv in E as (_ & ->). unfold Grow, wmodels; cbn [w_next w_models w_files].
+  rewrite list_set_length. repeat split; lia.
+Qed.
+Lemma grows_modify_model m f : grows (modify_model m f).
+Proof.
+  intros w r w' E. apply modify_model_inv in E as (x & _ & _ & ->). unfold Grow, wmodels; cbn [w_next w_models w_files].
+  rewrite list_set_length. repeat split; lia.
+Qed.
+Lemma grows_set_file f x : grows (set_file f x).
+Proof.
+  intros w r w' E. unfold set_file in E. injection E as _ <-. unfold Grow; cbn [w_next w_models w_files].
+  rewrite list_set_length. repeat split; lia.
+Qed.
